@@ -1,6 +1,7 @@
 package refactor
 
 import (
+	"slices"
 	"strings"
 
 	"github.com/nyaruka/goflow/excellent"
@@ -8,10 +9,26 @@ import (
 
 // ContextRefRename returns a transformation function that renames context references
 func ContextRefRename(from, to string) func(excellent.Expression) bool {
+	matches := func(name string) bool {
+		return strings.ToLower(name) == strings.ToLower(from) // same comparison as the context itself uses
+	}
+
 	return func(exp excellent.Expression) bool {
+		// inside an anonymous function that has a parameter of that name, the name refers to the parameter
+		shadowed := make(map[*excellent.ContextReference]bool)
+		exp.Visit(func(e excellent.Expression) {
+			if fn, ok := e.(*excellent.AnonFunction); ok && slices.ContainsFunc(fn.Args, matches) {
+				fn.Body.Visit(func(b excellent.Expression) {
+					if ref, ok := b.(*excellent.ContextReference); ok && matches(ref.Name) {
+						shadowed[ref] = true
+					}
+				})
+			}
+		})
+
 		changed := false
 		exp.Visit(func(e excellent.Expression) {
-			if ref, ok := e.(*excellent.ContextReference); ok && strings.ToLower(ref.Name) == strings.ToLower(from) { // same comparison as the context itself uses
+			if ref, ok := e.(*excellent.ContextReference); ok && matches(ref.Name) && !shadowed[ref] {
 				ref.Name = to
 				changed = true
 			}
